@@ -316,6 +316,7 @@ def main(argv):
     t0 = time.time()
     known = load_known(prop)
     unproved = []          # proof obligations / ties that no longer check
+    site_info = {}
     build_notes = []
 
     with Lock():
@@ -342,6 +343,16 @@ def main(argv):
                     bad = [a for a in ax if a not in ALLOWED_AXIOMS]
                     if bad:
                         unproved.append({"what": f"theorem {t} depends on non-standard axioms {bad}", "output": ""})
+        if spec.get("sites") and ok:
+            rc_s, sites_out = run([HARNESS, "sites"], env=GOENV, timeout=120)
+            expected = json.load(open(os.path.join(VERIF, "panic_sites.expected.json")))
+            found = [l.strip() for l in sites_out.splitlines() if l.count("|") >= 3]
+            new_sites = [l for l in found if l not in expected]
+            site_info.update({"sites_found": len(found), "sites_expected": len(expected), "new_sites": new_sites[:20]})
+            if rc_s != 0 or not found:
+                unproved.append({"what": "panic-site inventory could not be regenerated", "output": sites_out[-2000:]})
+            elif new_sites:
+                unproved.append({"what": f"{len(new_sites)} place(s) where Go can panic are new or changed and have no discharge argument in panic_sites.expected.json", "output": "\n".join(new_sites[:20])})
         esc = grep_escapes()
         if esc:
             unproved.append({"what": "proof escapes found in Lean sources", "output": "\n".join(esc[:20])})
@@ -443,6 +454,8 @@ def main(argv):
         "exhaustive_note": spec.get("exhaustive_note", ""),
         "explanation": spec.get("explanation", ""),
     }
+    if site_info:
+        cov["panic_site_inventory"] = site_info
     write_evidence(prop, tier, seed, spec, cov, spec.get("assumptions", []), wall, violations)
     if not args.keep and not violations:
         shutil.rmtree(os.path.join(BUILD, "run", prop), ignore_errors=True)
